@@ -253,11 +253,11 @@ one (int si, int ni, int fill)
     rb[i] = fill == 'Z' ? 0 : fill == 'P' ? vh_fillP ((size_t) i + 3) : fill == 'F' ? 0xff : (unsigned char) (vh_hash (&i, sizeof i, (uint64_t) fill) >> 13);
   snprintf (cj, sizeof cj, "{\"prefix\":%s,\"nrbytes\":%d,\"fill\":\"%c\",\"replay\":\"%d:%d:%c\"", vh_jstr (S->prefix),
             nrb, fill, si, ni, fill);
-  errno = 0;
   char *r = 0;
   int k = VH_TRY (0);
   if (k == 0)
     {
+      errno = ((si + ni) & 1) ? EPERM : ((si + ni) & 2) ? ERANGE : 0;
       r = crypt_gensalt_rn (S->prefix, 0, (const char *) rb, nrb, out, sizeof out);
       VH_END ();
     }
